@@ -2,7 +2,7 @@
 # usage: tools/try_seed.sh <property id> <dir with patch.diff demo.c demo.sh> [tier]
 # Confirms a seeded change in its scratch worktree (tests pass, demo fails with / passes without), then applies it
 # to /repo, runs the property's check, and undoes it. Prints a one-line verdict.
-id=$1; d=$2; tier=${3:-quick}; wt=/tmp/mut/$id; pid=${id%[bc]}
+id=$1; d=$2; tier=${3:-quick}; wt=/tmp/mut/$id; pid=${id%[a-z]}
 set -o pipefail
 cd $wt || exit 9
 git -C $wt checkout -q -- . 2>/dev/null; git -C $wt apply $d/patch.diff || { echo "SEED $id: patch does not apply to worktree"; exit 9; }
